@@ -122,7 +122,7 @@ Definition step_main (v : hvariant) (s : hstate) (i : nat) (x : inst) : option h
                 match i_ctl y with
                 | TBound =>
                     if Nat.eqb k i then None
-                    else Some (with_insts s (upd i (with_pc x (PWait k)) (upd k (with_msg y true (i_recv y) (i_replied y)) (insts s))))
+                    else Some (set_inst (set_inst s i (with_pc x (PWait k))) k (with_msg y true (i_recv y) (i_replied y)))
                 | _ => Some (set_inst s i (with_pc x PRm))
                 end
             | None => Some (set_inst s i (with_pc x PRm))
@@ -200,9 +200,9 @@ Definition step_sd (s : hstate) (i : nat) (x : inst) (lb : label) : option hstat
 Definition hstep (v : hvariant) (s : hstate) (lb : hlabel) : option hstate :=
   match lb with
   | HStart =>
-      match last (map is_up (insts s)) false with
-      | true => Some (with_insts s (insts s ++ [new_inst (np s)]))
-      | false => None
+      match nth_error (insts s) (pred (length (insts s))) with
+      | Some x => if is_up x then Some (with_insts s (insts s ++ [new_inst (np s)])) else None
+      | None => None
       end
   | HMain i => match nth_error (insts s) i with Some x => step_main v s i x | None => None end
   | HBind i j => match nth_error (insts s) i with Some x => step_bind v s i j x | None => None end
